@@ -212,7 +212,10 @@ def make_cases(chk):
             if r < 0.2:     # infeasible: a concentration the solvent amount cannot accommodate / a total smaller than the solutes
                 if 'total' in m and 'qs' in m:
                     m['total']['v'] = gen.dec(float(F(m['total']['v']) * F(1, 1000)), 2)
-                    op.update(expect='infeasible', why='the total quantity is far smaller than the solute quantities')
+                    # infeasible only if the solutes alone exceed the new total in ITS unit (an enzyme adds nothing to a total in moles)
+                    tu = m['total']['p'] + m['total']['b']
+                    if sum(value_of(g.subs, amounts, sid, tu) for sid in solutes) > F(m['total']['v']) * F(101, 100):
+                        op.update(expect='infeasible', why='the total quantity is far smaller than the solute quantities')
                 elif 'cs' in m and m['cs'][0].get('nb', 'mol') == m['cs'][0].get('db', 'L') and 's' not in m['cs'][0] and not m['cs'][0].get('dv'):
                     m['cs'][0]['v'] = '1.5'
                     m['cs'][0]['np'] = m['cs'][0]['dp'] = ''
@@ -237,6 +240,23 @@ def make_cases(chk):
             o = g.emit(op, f"solution:{mode}:n{nsol}" + (':' + op['expect'] if op.get('expect') else ''))
             if o['ok']:
                 g.containers.append(op['out'])
+        if i % 3 == 1:
+            # concentration AND quantity for two solutes: consistent (accepted, every stated value met) and contradictory in the
+            # later quantity (refused), from mole down to nanomole scale
+            sol = [s['id'] for s in g.subs if s['kind'] == 'Solid'][:2]
+            liq = [s['id'] for s in g.subs if s['kind'] == 'Liquid']
+            if len(sol) == 2 and liq:
+                qp, cp = rng.choice([('n', 'm'), ('n', 'u'), ('u', 'm'), ('m', ''), ('u', '')])
+                v = rng.choice(['10', '25', '4'])
+                conc = {'v': rng.choice(['1', '2', '0.5']), 'np': cp, 'nb': 'mol', 'dp': '', 'db': 'L'}
+                for factor, expect, why in ((1, 'feasible', None), (rng.choice(['0.5', '2', '1.1']), 'infeasible', 'the quantity of the second solute contradicts its concentration')):
+                    m = {'cs': [dict(conc), dict(conc)], 'qs': [{'v': v, 'p': qp, 'b': 'mol'}, {'v': gen.dec(float(F(v) * F(factor)), 3), 'p': qp, 'b': 'mol'}]}
+                    op = {'op': 'solution', 'out': g.fresh(), 'name': g.name(), 'solutes': sol, 'solvent': liq[0], 'mode': m, 'expect': expect}
+                    if why:
+                        op['why'] = why
+                    o = g.emit(op, f"solution:cq2:{qp}mol:{expect}")
+                    if o['ok']:
+                        g.containers.append(op['out'])
         gens.append(g)
     gens += twin_lot_cases(chk)
     return gens
